@@ -564,7 +564,8 @@ impl Range {
     fn from_min_max(min: f64, max: f64) -> Result<Self> {
         // Halved values avoid an overflow to infinity for very large ranges
         let range = max * 0.5 - min * 0.5;
-        if range < 0.0 {
+        // This also rejects NaN values, they would cause a panic when clamping values later
+        if !(range >= 0.0) {
             Error::invalid(format!("Found invalid range: min={min}, max={max}"))?;
         }
         // A degenerate range with min=max normalizes all values to zero
